@@ -205,7 +205,7 @@ ApplyHost(s0, r) ==
                       !.kbd = IF r.clearbuf = "kbd" THEN <<>> ELSE @,
                       !.disp = IF r.clearbuf = "disp" THEN <<>> ELSE @])
     [] r.op = "mark" -> ok([s EXCEPT !.mark = MarkOf(s)])
-    [] r.op = "trapdone" -> [st |-> s, bad |-> TrapContract(s, r.vect, r.prompt)]
+    [] r.op = "trapdone" -> [st |-> s, bad |-> TrapContract(s, r.vect, r.prompt, r.hch)]
     [] r.op = "halted" ->      \* C11: HALT stops the machine (virtual: halt at the TRAP; real: MCR cleared by the OS)
          [st |-> s, bad |-> IF s.pause \in {"Halt", "MCROff"} /\ ~s.mcr THEN {} ELSE {"trap-halt"}]
     [] r.op = "prefetchpc" ->
